@@ -40,7 +40,8 @@ type Op struct {
 	Re    int    `json:"re,omitempty"`   // iter: number of complete re-iterations
 	Off   int    `json:"off,omitempty"`  // arena: offset of the key argument inside the caller's buffer
 	Spare int    `json:"spare,omitempty"`
-	G     int    `json:"g,omitempty"` // goroutine (C16)
+	Fill  int    `json:"fill,omitempty"` // arena: what the caller's buffer holds around the key (0 pattern, 1 zeros, 2 zero right after the key, 3 0xff)
+	G     int    `json:"g,omitempty"`    // goroutine (C16)
 	Note  string `json:"note,omitempty"`
 }
 
@@ -59,7 +60,7 @@ func (t *Trace) Hash() uint64 {
 	h := sha256.New()
 	fmt.Fprintf(h, "%s|%s|%s|", t.Property, strings.Join(t.Kinds, ";"), t.Variant)
 	for _, op := range t.Ops {
-		fmt.Fprintf(h, "%d,%s,%x,%x,%d,%d,%s,%d,%d,%d,%d,%d;", op.T, op.Op, []byte(op.K), []byte(op.K2), op.V, op.N, op.M, op.Stop, op.Re, op.Off, op.Spare, op.G)
+		fmt.Fprintf(h, "%d,%s,%x,%x,%d,%d,%s,%d,%d,%d,%d,%d;", op.T, op.Op, []byte(op.K), []byte(op.K2), op.V, op.N, op.M, op.Stop, op.Re, op.Off, op.Spare+16*op.Fill, op.G)
 	}
 	return binary.BigEndian.Uint64(h.Sum(nil)[:8])
 }
